@@ -135,9 +135,16 @@ def run(ctx):
     ctx.bound("block_kinds", BLOCKS)
     ctx.bound("further_steps", FURTHER)
 
-    J = Jobs()
-    cases = []
+    sites = [(d, k) for d in range(4) for k in BLOCKS]
+    leaks = {}            # leak kind -> {site: example}
+    clean = {s: 0 for s in sites}
+    checked = {s: 0 for s in sites}
+    n_cases = n_skipped = n_checks = 0
+    total_cases = total_jobs = 0
+    samples = []
     for sub in subsets:
+        J = Jobs()          # one job table per setup subset (bounds memory; fresh-session references are shared inside it)
+        cases = []
         defs = [DEFS[i] for i in sub if i < 3]
         lets = [LETS[i - 3] for i in sub if i >= 3]
         for depth in range(4):
@@ -176,108 +183,106 @@ def run(ctx):
                             case["before"][q] = (J.add(setup + [q]), len(setup) + 1)
                         cases.append(case)
 
-    res = J.run(ctx)
-    sites = [(d, k) for d in range(4) for k in BLOCKS]
-    leaks = {}            # leak kind -> {site: example}
-    clean = {s: 0 for s in sites}
-    checked = {s: 0 for s in sites}
-    n_cases = n_skipped = n_checks = 0
-    for c in cases:
-        site = c["site"]
-        r0 = res[c["abort_job"]]
-        nh = c["n_hist"]
-        n_setup = len(c["setup"])
-        if "crash" in r0 or "timeout" in r0:
-            raise Machinery(f"history died before the probes: {c['hist']} -> {r0}")
-        # the setup must be error-free and the failing request must fail (otherwise the generator is wrong)
-        if r0.get("panic") is not None and r0["panic"]["request"] <= n_setup:
-            raise Machinery(f"setup or failing request panicked: {c['hist']} -> {r0['panic']}")
-        for i in range(n_setup):
-            a = answer(r0["responses"][i])
-            if a[0] != "Ok":
-                raise Machinery(f"setup request {c['hist'][i]!r} was not accepted: {a}")
-        a_fail = answer(r0["responses"][n_setup])
-        if a_fail != ("Err", ("Exception: boom",)):
-            raise Machinery(f"generated failing request {c['hist'][n_setup]!r} did not fail with `boom`: {a_fail}")
-        if r0.get("panic") is not None:
-            # the further step (:skip / :replace / second request) panicked before :abort was reached: C09's subject
-            n_skipped += 1
-            ctx.outcome("further-step-panicked-before-abort (C09)")
-            continue
-        if answer(r0["responses"][nh - 1]) != ("cmd", "Aborted"):
-            raise Machinery(f":abort was not acknowledged: {answer(r0['responses'][nh - 1])}")
-        n_cases += 1
-        case_leaks = []
-
-        def leak(kind, info):
-            case_leaks.append(kind)
-            ex = leaks.setdefault(kind, {})
-            cur = ex.get(site)
-            cand = dict(info, history=c["hist"], further=c["further"], pre_let=c["pre_let"])
-            if cur is None or (len(c["hist"]), c["further"] != "none") < (len(cur["history"]), cur["further"] != "none"):
-                cand["instances"] = (cur or {}).get("instances", 0)
-                ex[site] = cand
-            ex[site]["instances"] += 1
-
-        # (a) expression probes: differential against a fresh session
-        for q, cls, ja, jf, nf in c["probes"]:
-            got = last_answer(res[ja], nh + 1)
-            want = last_answer(res[jf], nf)
-            n_checks += 1
-            if want[0] in ("PANIC", "DIED", "EARLIER-PANIC", "MULTI"):
-                raise Machinery(f"fresh reference session misbehaved on probe {q!r}: {want} ({J.reqs[jf]})")
-            if got == want:
+        res = J.run(ctx)
+        total_cases += len(cases)
+        total_jobs += len(J.reqs)
+        samples.append(cases[len(cases) // 3])
+        for c in cases:
+            site = c["site"]
+            r0 = res[c["abort_job"]]
+            nh = c["n_hist"]
+            n_setup = len(c["setup"])
+            if "crash" in r0 or "timeout" in r0:
+                raise Machinery(f"history died before the probes: {c['hist']} -> {r0}")
+            # the setup must be error-free and the failing request must fail (otherwise the generator is wrong)
+            if r0.get("panic") is not None and r0["panic"]["request"] <= n_setup:
+                raise Machinery(f"setup or failing request panicked: {c['hist']} -> {r0['panic']}")
+            for i in range(n_setup):
+                a = answer(r0["responses"][i])
+                if a[0] != "Ok":
+                    raise Machinery(f"setup request {c['hist'][i]!r} was not accepted: {a}")
+            a_fail = answer(r0["responses"][n_setup])
+            if a_fail != ("Err", ("Exception: boom",)):
+                raise Machinery(f"generated failing request {c['hist'][n_setup]!r} did not fail with `boom`: {a_fail}")
+            if r0.get("panic") is not None:
+                # the further step (:skip / :replace / second request) panicked before :abort was reached: C09's subject
+                n_skipped += 1
+                ctx.outcome("further-step-panicked-before-abort (C09)")
                 continue
-            if cls == "local-name" and got[0] == "Ok":
-                leak("local name visible", {"probe": q, "aborted_session": got, "fresh_session": want, "fresh_requests": list(J.reqs[jf])})
-            else:
-                leak(f"{cls} probe answers differently", {"probe": q, "aborted_session": got, "fresh_session": want, "fresh_requests": list(J.reqs[jf])})
-        # (b) inspection probes: the session against itself before the failing request
-        ins = {q: last_answer(res[j], nh + 1) for q, j in c["insp"].items()}
-        bef = {q: last_answer(res[j], n) for q, (j, n) in c["before"].items()}
-        n_checks += 5
-        for q, v in bef.items():
-            if v[0] not in ("cmd", "Ok"):
-                raise Machinery(f"before-snapshot {q} misbehaved: {v} after {c['setup']}")
-        if ins[":stack"] != ("cmd", "__toplevel__"):
-            leak("frame", {"probe": ":stack", "aborted_session": ins[":stack"], "expected": "__toplevel__"})
-        if ins[":fstmts"] != ("cmd", ""):
-            leak("pending statement", {"probe": ":fstmts", "aborted_session": (ins[":fstmts"][0], ins[":fstmts"][1][:300]), "expected": ""})
-        if ins[":fvalues"][0] != "cmd":
-            leak("pending value", {"probe": ":fvalues", "aborted_session": ins[":fvalues"]})
-        else:
-            after_vals = [l for l in ins[":fvalues"][1].split("\n") if l][::-1]      # printed top first
-            before_vals = [l for l in bef[":fvalues"][1].split("\n") if l][::-1]
-            if after_vals != before_vals[:len(after_vals)]:
-                leak("pending value", {"probe": ":fvalues", "aborted_session_bottom_up": after_vals, "before_failing_request_bottom_up": before_vals})
-        if ins[":locals"][0] != "cmd":
-            leak("top-level variables changed", {"probe": ":locals", "aborted_session": ins[":locals"]})
-        else:
-            want_locals = dict(parse_locals(bef[":locals"][1]))
-            want_locals.update(dict(c["completed"]))
-            got_locals = parse_locals(ins[":locals"][1])
-            if got_locals != want_locals:
-                extra = sorted(set(got_locals) - set(want_locals))
-                kind = "local name visible" if extra else "top-level variables changed"
-                leak(kind, {"probe": ":locals", "aborted_session": got_locals, "expected": want_locals})
-        if ins[":resume"] != bef[":resume"]:
-            leak("resume-not-idle", {"probe": ":resume", "aborted_session": ins[":resume"], "idle_session": bef[":resume"]})
-        checked[site] += 1
-        if not case_leaks:
-            clean[site] += 1
-        ctx.outcome("clean history" if not case_leaks else "history with leak")
+            if answer(r0["responses"][nh - 1]) != ("cmd", "Aborted"):
+                raise Machinery(f":abort was not acknowledged: {answer(r0['responses'][nh - 1])}")
+            n_cases += 1
+            case_leaks = []
 
-    ctx.add(states=len(cases), transitions=len(J.reqs), nontrivial=n_cases)
-    ctx.bound("histories", len(cases))
+            def leak(kind, info):
+                case_leaks.append(kind)
+                ex = leaks.setdefault(kind, {})
+                cur = ex.get(site)
+                cand = dict(info, history=c["hist"], further=c["further"], pre_let=c["pre_let"])
+                if cur is None or (len(c["hist"]), c["further"] != "none") < (len(cur["history"]), cur["further"] != "none"):
+                    cand["instances"] = (cur or {}).get("instances", 0)
+                    ex[site] = cand
+                ex[site]["instances"] += 1
+
+            # (a) expression probes: differential against a fresh session
+            for q, cls, ja, jf, nf in c["probes"]:
+                got = last_answer(res[ja], nh + 1)
+                want = last_answer(res[jf], nf)
+                n_checks += 1
+                if want[0] in ("PANIC", "DIED", "EARLIER-PANIC", "MULTI"):
+                    raise Machinery(f"fresh reference session misbehaved on probe {q!r}: {want} ({J.reqs[jf]})")
+                if got == want:
+                    continue
+                if cls == "local-name" and got[0] == "Ok":
+                    leak("local name visible", {"probe": q, "aborted_session": got, "fresh_session": want, "fresh_requests": list(J.reqs[jf])})
+                else:
+                    leak(f"{cls} probe answers differently", {"probe": q, "aborted_session": got, "fresh_session": want, "fresh_requests": list(J.reqs[jf])})
+            # (b) inspection probes: the session against itself before the failing request
+            ins = {q: last_answer(res[j], nh + 1) for q, j in c["insp"].items()}
+            bef = {q: last_answer(res[j], n) for q, (j, n) in c["before"].items()}
+            n_checks += 5
+            for q, v in bef.items():
+                if v[0] not in ("cmd", "Ok"):
+                    raise Machinery(f"before-snapshot {q} misbehaved: {v} after {c['setup']}")
+            if ins[":stack"] != ("cmd", "__toplevel__"):
+                leak("frame", {"probe": ":stack", "aborted_session": ins[":stack"], "expected": "__toplevel__"})
+            if ins[":fstmts"] != ("cmd", ""):
+                leak("pending statement", {"probe": ":fstmts", "aborted_session": (ins[":fstmts"][0], ins[":fstmts"][1][:300]), "expected": ""})
+            if ins[":fvalues"][0] != "cmd":
+                leak("pending value", {"probe": ":fvalues", "aborted_session": ins[":fvalues"]})
+            else:
+                after_vals = [l for l in ins[":fvalues"][1].split("\n") if l][::-1]      # printed top first
+                before_vals = [l for l in bef[":fvalues"][1].split("\n") if l][::-1]
+                if after_vals != before_vals[:len(after_vals)]:
+                    leak("pending value", {"probe": ":fvalues", "aborted_session_bottom_up": after_vals, "before_failing_request_bottom_up": before_vals})
+            if ins[":locals"][0] != "cmd":
+                leak("top-level variables changed", {"probe": ":locals", "aborted_session": ins[":locals"]})
+            else:
+                want_locals = dict(parse_locals(bef[":locals"][1]))
+                want_locals.update(dict(c["completed"]))
+                got_locals = parse_locals(ins[":locals"][1])
+                if got_locals != want_locals:
+                    extra = sorted(set(got_locals) - set(want_locals))
+                    kind = "local name visible" if extra else "top-level variables changed"
+                    leak(kind, {"probe": ":locals", "aborted_session": got_locals, "expected": want_locals})
+            if ins[":resume"] != bef[":resume"]:
+                leak("resume-not-idle", {"probe": ":resume", "aborted_session": ins[":resume"], "idle_session": bef[":resume"]})
+            checked[site] += 1
+            if not case_leaks:
+                clean[site] += 1
+            ctx.outcome("clean history" if not case_leaks else "history with leak")
+
+    ctx.add(states=total_cases, transitions=total_jobs, nontrivial=n_cases)
+    ctx.bound("histories", total_cases)
     ctx.bound("histories_reaching_abort", n_cases)
     ctx.bound("probe_checks", n_checks)
     ctx.bound("leak_free_histories_per_site", {f"depth{d}/{k}": f"{clean[(d, k)]}/{checked[(d, k)]}" for d, k in sites})
-    if n_cases < len(cases) // 2:
-        raise Machinery(f"vacuous: only {n_cases} of {len(cases)} histories reached :abort")
+    if n_cases < total_cases // 2:
+        raise Machinery(f"vacuous: only {n_cases} of {total_cases} histories reached :abort")
     for s in sites:
         if checked[s] == 0:
             raise Machinery(f"vacuous: no history of site class depth{s[0]}/{s[1]} reached the probes")
-    for c in (cases[0], cases[len(cases) // 2], cases[-1]):
+    for c in (samples[0], samples[len(samples) // 2], samples[-1]):
         ctx.sample({"history": c["hist"], "expression_probes": [p[0] for p in c["probes"]], "inspection_probes": list(c["insp"])})
 
     # signatures: leak kind + failing-site class; site classes are merged when a leak shows at every block kind of a depth / everywhere
